@@ -60,9 +60,9 @@ def branch (w : World) (e : Ev) : String :=
           | .heartbeat (some _) true => "deliver/hb-register"
           | .heartbeat (some _) false => "deliver/hb-unregister"
           | .plain => "deliver/plain"
-          | .shutdown => "deliver/shutdown"
+          | .shutdown => if w.noloop.contains c.addr then "deliver/shutdown-noloop" else "deliver/shutdown"
   | .kill _ => "kill"
-  | .revive _ => "revive"
+  | .revive a => if w.stopped.contains a then "revive/restart" else "revive"
   | .shutdown _ => "shutdown"
 
 def handle (j : Json) : Except String Json := do
